@@ -67,7 +67,7 @@ func c08Rules(p *Prog) *RuleSet {
 			}},
 			// sqlite
 			equal("token-mac-eq", "hmac.Equal(token MAC, MAC recomputed over the session id under the store's secret) is true",
-				hasProv("call:encoding/base64.Encoding.DecodeString"), provAnd(filledBySum, lacksProv("call:encoding/base64.Encoding.DecodeString"))),
+				provAnd(hasProv("call:encoding/base64.Encoding.DecodeString"), func(m *Matcher, v ssa.Value) bool { return !filledBySum(m, v) }), filledBySum),
 			boolTrue("session-ok", "sessionID reported a valid token", func(n string) bool { return n == "fdo/sqlite.DB.sessionID" }, 1, nil),
 		},
 		Derive: []Derivation{
@@ -599,8 +599,8 @@ func keysOf(m map[int64]bool) []int64 {
 // filledBySum: v is the result of hash.Hash.Sum, or a buffer made here and
 // handed (sliced) to hash.Hash.Sum as its destination.
 func filledBySum(m *Matcher, v ssa.Value) bool {
-	if m.Prov(v).Has("call:hash.Hash.Sum") {
-		return true
+	if m.Prov(v).HasX("call:hash.Hash.Sum") {
+		return true // computed here or by a helper that returns the Sum
 	}
 	ms, ok := v.(*ssa.MakeSlice)
 	if !ok {
